@@ -1,4 +1,5 @@
 import TinodeVerif.Model.TxSkel
+import TinodeVerif.Model.StoreOps
 namespace Tinode.Driver.C18
 open Tinode.Gen.TxSkel
 
@@ -19,5 +20,7 @@ def report : String :=
 def model (ws : List String) : Option String :=
   match ws with
   | ["tx.report"] => some report
+  | ["sop.ucreate", k, l] => k.toNat?.map (fun k => Tinode.StoreOps.render (Tinode.StoreOps.usersCreate { failAt := k, loss := l = "loss" }))
+  | ["sop.tcreate", k, l] => k.toNat?.map (fun k => Tinode.StoreOps.render (Tinode.StoreOps.topicsCreate { failAt := k, loss := l = "loss" }))
   | _ => none
 end Tinode.Driver.C18
